@@ -475,3 +475,51 @@ fn probe_collect_statistic() {
         }
     }
 }
+
+/// C06: forward_to_next_storage_header == first occurrence of "DLT\x01" (naive scan), on every
+/// buffer of <= 9 bytes over the alphabet {D, L, T, 0x01, 0x00} (the bytes the pattern is made of
+/// plus one other), and seeded random longer buffers over the same alphabet.
+#[test]
+fn probe_forward() {
+    use crate::parse::forward_to_next_storage_header;
+    const AL: [u8; 5] = [b'D', b'L', b'T', 1, 0];
+    fn naive(b: &[u8]) -> Option<usize> {
+        (0..b.len().saturating_sub(3)).find(|&i| b.len() >= 4 && &b[i..i + 4] == b"DLT\x01")
+    }
+    fn check(buf: &[u8]) {
+        let b2 = buf.to_vec();
+        let r = std::panic::catch_unwind(move || forward_to_next_storage_header(&b2).map(|(k, rest)| (k, rest.len())));
+        let want = naive(buf);
+        match r {
+            Err(_) => report("forward_to_next_storage_header", format!("bytes={}", hex(buf)), "panic".into()),
+            Ok(got) => {
+                let good = match (got, want) {
+                    (None, None) => true,
+                    (Some((k, rl)), Some(e)) => k as usize == e && rl == buf.len() - e,
+                    _ => false,
+                };
+                if !good {
+                    report("forward_to_next_storage_header", format!("bytes={}", hex(buf)), format!("returned {:?} (offset, rest length); the first pattern occurrence is {:?}", got, want));
+                }
+            }
+        }
+    }
+    for n in 0usize..=9 {
+        let total = 5usize.pow(n as u32);
+        let mut buf = vec![0u8; n];
+        for code in 0..total {
+            let mut c = code;
+            for slot in buf.iter_mut() {
+                *slot = AL[c % 5];
+                c /= 5;
+            }
+            check(&buf);
+        }
+    }
+    let mut rng = Rng(seed());
+    for _ in 0..20000 {
+        let n = 10 + (rng.next() % 40) as usize;
+        let buf: Vec<u8> = (0..n).map(|_| AL[(rng.next() % 5) as usize]).collect();
+        check(&buf);
+    }
+}
